@@ -1,5 +1,6 @@
 import XmppModel.Prelude.Hex
 import XmppModel.Model.Sasl
+import XmppModel.Model.SaslGate
 /-! Driver module for C03 (line protocol: see harness/c03/c03.go). -/
 namespace XmppModel.Driver.C03
 open XmppModel XmppModel.Sasl
@@ -26,6 +27,12 @@ def parsePayload (s : String) : Option Payload :=
   else if s == "eq" then some .eq
   else if s == "sh" || s == "sh1" || s == "sh3" then some .short
   else if s == "bad" || s == "bad5" || s == "badp" then some .bad
+  else if s.startsWith "bv" || s.startsWith "bd" then
+    -- undecodable with a decodable prefix: the prefix plays no role
+    match hexDecode (s.drop 2).toString with
+    | some [] => none
+    | some _ => some .bad
+    | none => none
   else if s.startsWith "v" then
     match hexDecode (s.drop 1).toString with
     | some [] => none
@@ -219,6 +226,57 @@ def handleConcS (sched accept : String) (creds : List String) : Option String :=
   let rs ← mapM? (fun s => match s with | SSess.finished r => some (showSRes r) | _ => none) ss
   pure (" ; ".intercalate rs)
 
+/-- the harness's `X-ECHO`: two messages, each answered with the reversed message -/
+def echoMech : Mech := fun hist =>
+  match hist with
+  | [c] => { kind := .more, resp := c.reverse }
+  | [_, c] => { kind := .done, resp := c.reverse }
+  | _ => { kind := .otherErr }
+
+/-- sessions with different mechanisms and exchanges on one feature value, interleaved element
+by element -/
+def handleConcM (sched : String) (scripts : List String) : Option String := do
+  let sch ← mapM? (fun x : String => x.toNat?) (splitList sched)
+  let scs ← mapM? (fun s => mapM? parseSEv (splitList s)) scripts
+  let perm : Bytes → Bytes → Bytes → Bool := fun u p _ =>
+    u == "user".toUTF8.toList && p == "secret".toUTF8.toList
+  let cfg := [("PLAIN", plainServer perm), ("X-ECHO", echoMech)]
+  let n := scs.length
+  let fin := (List.range n).flatMap fun i => List.replicate 6 i
+  let ss := runSched cfg (scs.map SSess.start) (sch ++ fin)
+  let rs ← mapM? (fun s => match s with | SSess.finished r => some (showSRes r) | _ => none) ss
+  pure (" ; ".intercalate rs)
+
+/-- the harness's `X-ECHOC` (initiating side): starts with "hi", answers its two challenges with
+the reversed challenge -/
+def echoClientMech : Mech := fun hist =>
+  match hist with
+  | [] => { kind := .more, resp := [104, 105] }
+  | [c] => { kind := .more, resp := c.reverse }
+  | [_, c] => { kind := .done, resp := c.reverse }
+  | _ => { kind := .otherErr }
+
+/-- initiating sessions with different advertised lists and exchanges on one feature value -/
+def handleConcX (sched : String) (sessions : List String) : Option String := do
+  let sch ← mapM? (fun x : String => x.toNat?) (splitList sched)
+  let scs ← mapM? (fun (s : String) =>
+    match s.splitOn ":" with
+    | [a, p] => do
+      let adv ← decNames a
+      let peer ← mapM? parseCEv (splitList p)
+      pure (adv, peer)
+    | _ => none) sessions
+  let plain : Mech := fun _ => { kind := .done, resp := 0 :: "user".toUTF8.toList ++ 0 :: "secret".toUTF8.toList }
+  let cm := [("X-ECHOC", echoClientMech), ("PLAIN", plain)]
+  let n := scs.length
+  let fin := (List.range n).flatMap fun i => List.replicate 6 i
+  let ss := runSchedC cm (scs.map fun ap => CSess.init ap.1 ap.2) (sch ++ fin)
+  let rs ← mapM? (fun s => match s with
+    | CSess.finished r =>
+      some s!"{showBool r.authn} {if r.used.isNone && r.err == .nomech then "nomech" else r.err.toString} {joinList (r.sent.map showCSent)}"
+    | _ => none) ss
+  pure (" ; ".intercalate rs)
+
 def handleConcC (users : List String) : Option String := do
   let us ← mapM? (fun x => hexDecode x) users
   let rs := us.map fun u =>
@@ -227,8 +285,43 @@ def handleConcC (users : List String) : Option String := do
     s!"{showBool r.authn} {r.err.toString} {joinList (r.sent.map showCSent)}"
   pure (" ; ".intercalate rs)
 
+/-- rows of the probe tables as lines -/
+def handleProbe : List String → Option String
+  | ["gate", _, _] => some s!"{saslNecessary} {saslProhibited}"
+  | ["gaterun", _, st, _] => do
+    let s ← st.toNat?
+    let a := allowed saslNecessary saslProhibited s
+    pure s!"{showBool a} {showBool a}"
+  | ["gs2", kind, cm, adv] => do
+    let k ← kind.toNat?
+    let c ← decNames cm
+    let a ← decNames adv
+    let r := gs2Row k c a
+    pure s!"{if r.1 == "-" then "-" else encName r.1} {r.2}"
+  | ["failc", _, c] =>
+    let cond := if c == "-" then "" else c
+    some s!"0 1 {hexEncodeStr (failureText cond)}"
+  | ["optstls", _, ver, _] => do
+    let v ← ver.toNat?
+    let o := tlsOpt (some ⟨v, []⟩)
+    pure s!"1 {showBool o.isSome} {match o with | some s => s.version | none => 0} 1"
+  | ["opts", role, kind, adv] => do
+    let k ← kind.toNat?
+    let a ← decNames adv
+    let ((tls, ver, uq), remote, (u, p, i)) ← optsRow role k a
+    let hx (x : String) := if x.isEmpty then "-" else hexEncodeStr x
+    let uqb : Bytes := uq.map fun n => UInt8.ofNat n
+    pure s!"{showBool tls} {ver} {if uqb.isEmpty then "-" else hexEncode uqb} {joinList (remote.map encName)} {hx u}/{hx p}/{hx i}"
+  | _ => none
+
 def handle (args : List String) : Option String :=
   match args with
+  | "gate" :: _ => handleProbe args
+  | "gaterun" :: _ => handleProbe args
+  | "gs2" :: _ => handleProbe args
+  | "opts" :: _ => handleProbe args
+  | "optstls" :: _ => handleProbe args
+  | "failc" :: _ => handleProbe args
   | ["cli", cm, adv, steps, peer] => handleCli "-" "-" cm adv steps peer
   | ["clis", cm, adv, steps, peer] => handleCli "-" "-" cm adv steps peer
   | ["clie", budget, cancel, cm, adv, steps, peer] => handleCli budget cancel cm adv steps peer
@@ -249,6 +342,8 @@ def handle (args : List String) : Option String :=
     handleSrv false none sm steps perm peer "000" (some ⟨t, m, w⟩)
   | "concs" :: sched :: accept :: creds => handleConcS sched accept creds
   | "concc" :: _sched :: users => handleConcC users
+  | "concm" :: sched :: scripts => handleConcM sched scripts
+  | "concx" :: sched :: sessions => handleConcX sched sessions
   | ["srvw", n, sm, steps, perm, peer] => do
     let budget ← n.toNat?
     handleSrv false (some budget) sm steps perm peer
